@@ -39,7 +39,7 @@ Definition wp_step (p p' : wpc) : Prop := p' = p \/ (exists ch, p = WBlocked ch 
 Record quiet_rel (s s' : st) : Prop := {
   q_recs : recs s' = recs s; q_routine : routine s' = routine s; q_kctx : kctx s' = kctx s; q_timers : timers s' = timers s;
   q_clock : clock s' = clock s; q_bo : bo s' = bo s; q_cblog : cblog s' = cblog s; q_sv : sv s' = sv s; q_sfn : sfn s' = sfn s;
-  q_sval : sval s' = sval s; q_ncb : ncb s' = ncb s;
+  q_sval : sval s' = sval s; q_ncb : ncb s' = ncb s; q_dead : dead s' = dead s;
   q_ilen : length (insts s') = length (insts s);
   q_inst : forall i x', nth_error (insts s') i = Some x' -> exists x, nth_error (insts s) i = Some x /\ pc_step (ipcv x) (ipcv x') /\
              irec x' = irec x;
@@ -127,6 +127,7 @@ Proof.
   - right. now exists (EBook (n2n i)).
   - now left.
   - right. now exists (EAdvance d).
+  - right. now exists (ECancelRoot (n2n c)).
   - right. now exists (ETimerCb t).
   - right. now exists (EWaitExited (nz rinr)).
   - right. now exists (EWSect (n2n a)).
